@@ -73,6 +73,11 @@ def generate(seed, tier, index):
             # a second, different trajectory (other requested times): saved next to the first one under a similar name
             ops.append(["fs_build", "trj2", "trajectory", {"sidx": 1}])
             objects["trj2"] = "trajectory"
+    giant = index % 25 == 3
+    if giant:
+        # a trajectory of a molecule-counting engine whose counts exceed the 32-bit range, stored both ways
+        ops.append(["fs_build", "trjG", "trajectory", {"sidx": 2}])
+        objects["trjG"] = "trajectory"
     files = {}     # path -> object name (generator-side copy of M-fs, to draw loads)
     nfile = 0
     faults = set()
@@ -155,6 +160,13 @@ def generate(seed, tier, index):
         files[pb + ".json"] = "trj2"
         ops.append(["fs_load", "ld%d" % len(ops), "trajectory", pa + ".json", {"abs": rf.chance(0.3)}])
         faults.add("sibling_trajectory_files")
+    if giant:
+        for sep in (True, False):
+            pg = "a/giant_%s" % ("npy" if sep else "inline")
+            ops.append(["fs_save", "trjG", pg, {"abs": rf.chance(0.3), "separate": sep}])
+            files[pg + ".json"] = "trjG"
+            ops.append(["fs_load", "ld%d" % len(ops), "trajectory", pg + ".json", {"abs": rf.chance(0.3)}])
+        faults.add("counts_beyond_32_bits_in_a_saved_trajectory")
     # make sure something is loaded back
     for path in rf.sample(sorted(files), min(2, len(files))):
         ops.append(["fs_chdir", rf.choice(["", "c"])])
@@ -185,7 +197,8 @@ def generate(seed, tier, index):
     sp2["seed"] = rf.bits(31)
     entry2["script"] = gen.render_script(Stream(ID, seed, tier, index, "s2"), sp2, entry2["phys"]["us"], rich=False)
     return {"format": 1, "property": ID, "seed": seed, "tier": tier, "index": index, "build": "plain", "sandbox": True,
-            "scripts": [entry, entry2], "lifetimes": [{"pyseed": rf.bits(30), "episodes": eps}],
+            "scripts": [entry, entry2] + ([C.giant_entry(rs.sub("giant"), rk.sub("giant"))] if giant else []),
+            "lifetimes": [{"pyseed": rf.bits(30), "episodes": eps}],
             "meta": {"kind": kind, "faults": sorted(faults), "objects": objects}}
 
 
